@@ -78,6 +78,7 @@ var vPrograms = [][]string{
 	{"pp", "cm"}, {"pc", "pm"}, {"pm", "pc"}, {"pp", "pc"}, {"pc", "cp"}, {"cc", "pp"}, {"mp", "cm"},
 	{"pp", "c", "m"}, {"pc", "p", "c"}, {"p", "p", "c"},
 	{"ppp", "cm"}, {"ppc", "pm"},
+	{"m", "pc"}, {"m", "pp"}, {"mm", "pc"}, {"m", "p", "c"},
 }
 
 func VH_Concurrent() {
